@@ -1,4 +1,500 @@
-import SdbModel.Model.Table
-/-! # C03 — theorems under construction (see DESIGN.md section 4) -/
+import SdbModel.Lemmas.Table
+
+/-!
+# C03 — the write operations act on a table as on a map keyed by primary key
+
+> Within a write transaction and across committed transactions, Insert, InsertWatch, Modify,
+> Delete, DeleteAll, CompareAndSwap and CompareAndDelete act on the table exactly as the same
+> operations on a map keyed by primary key: they return the previous object or its absence and
+> the documented error, a rejected operation (revision mismatch, object not found) changes
+> nothing, and reads in the same transaction see its own earlier writes.  A write attempted on a
+> table the transaction does not hold, or through a finished transaction, changes nothing, and
+> Insert, Modify, Delete and the compare-and-* operations then report the documented error.
+
+Theorems over `Model.Table` for EVERY table state satisfying the invariant `Tbl.TInv`
+(`Lemmas/Table.lean`: both indexes sorted, objects stored under their own id, the revision index
+mirrors the primary index, revisions bounded by the table revision and pairwise distinct) and
+EVERY argument (all keys including the empty key, all guards, all objects).  `TInv` is proved
+for the empty table and preserved by every operation (`C03_inv_*`), hence holds in every
+reachable state of a table (`C03_inv_reachable`) and of the database (`C03_db_inv_reachable`).
+`Tbl.modify t guard o merge` is Insert/InsertWatch (`guard = 0, merge = false`), Modify
+(`merge = true`) and CompareAndSwap (`guard > 0`); `Tbl.delete t guard id` is Delete
+(`guard = 0`) and CompareAndDelete (`guard > 0`); `t.locked = false` is "table not held".
+
+`guard = 0` means "no guard" in the model exactly as in write_txn.go (`if guardRevision > 0`):
+CompareAndSwap / CompareAndDelete called with revision 0 behave as Insert / Delete (known
+finding K5).  The theorems state the model's semantics; `Tbl.GuardOk guard old` is
+"`guard = 0`, or the stored object has revision `guard`".
+
+The only hypothesis besides `TInv` is `rev + 1 < 2^64` in the preservation theorems (the Go
+counter is a `uint64`; at `2^64 - 1` it would wrap and `revKey` would collide).
+
+The transaction-handle level (`DB.wModify` …, `Lemmas/Table.lean`) mirrors what the differential
+driver does with `Model.Table`: the operation is applied to entry `ti` of `db.wtxn`; a finished
+transaction is `db.wtxn = none` and yields `Err.closed` (Go: `txn == nil`).  `Tbl.Reach` is
+reachability from `newDB` under the operations `DbOp` (begin a write transaction, the writes
+above, registering a delete tracker, Commit, Abort, a graveyard collection) with the counters
+below `2^64`.
+-/
 namespace Sdb
+open Tbl Tbl.OMap
+
+/-! ## the invariant: initial, preserved, reachable -/
+
+/-- the empty table (any flags) satisfies the invariant -/
+theorem C03_inv_initial (t : TableS) (hp : t.primary = []) (hr : t.revIdx = []) (hb : t.rev < 2 ^ 64) : TInv t :=
+  TInv.empty t hp hr hb
+
+/-- Insert / Modify / CompareAndSwap preserve the invariant, for all arguments -/
+theorem C03_inv_preserved_by_modify (t : TableS) (inv : TInv t) (guard : Nat) (o : Obj) (merge : Bool)
+    (hb : t.rev + 1 < 2 ^ 64) : TInv (modify t guard o merge).1 := by
+  apply inv.modify_preserves
+  rcases modify_rev_cases t guard o merge with ⟨_, h⟩ | ⟨_, h⟩ <;> rw [h] <;> omega
+
+/-- Delete / CompareAndDelete preserve the invariant, for all arguments -/
+theorem C03_inv_preserved_by_delete (t : TableS) (inv : TInv t) (guard : Nat) (id : Key)
+    (hb : t.rev + 1 < 2 ^ 64) : TInv (delete t guard id).1 := by
+  apply inv.delete_preserves
+  have := (delete_rev_le t guard id).2; omega
+
+/-- DeleteAll preserves the invariant (it assigns one revision per object) -/
+theorem C03_inv_preserved_by_deleteAll (t : TableS) (inv : TInv t)
+    (hb : t.rev + t.primary.length < 2 ^ 64) : TInv (deleteAll t).1 := by
+  apply inv.deleteAll_preserves
+  cases hl : t.locked
+  · rw [deleteAll_unlocked_eq t hl]; omega
+  · rw [deleteAll_rev t hl inv.sortedP]; exact hb
+
+/-- the invariant holds after every sequence of operations on a table -/
+theorem C03_inv_reachable (t : TableS) (inv : TInv t) (ops : List Op) (hb : (run t ops).rev < 2 ^ 64) :
+    TInv (run t ops) := inv.run ops hb
+
+/-- … and in every reachable state of the database, for the committed tables and for the
+    tables of the open write transaction -/
+theorem C03_db_inv_reachable (db : DB) (h : Reach db) :
+    (∀ t ∈ db.root, TInv t) ∧ ∀ es, db.wtxn = some es → ∀ t ∈ es, TInv t := by
+  have inv := h.inv
+  refine ⟨inv.root, ?_⟩
+  intro es hes t ht
+  have ⟨hlen, hall⟩ := inv.txn es hes
+  obtain ⟨i, hi⟩ := List.mem_iff_getElem?.mp ht
+  have hlt : i < db.root.length := by
+    rw [← hlen]
+    rcases Nat.lt_or_ge i es.length with h' | h'
+    · exact h'
+    · rw [List.getElem?_eq_none h'] at hi; simp at hi
+  exact (hall i t db.root[i] hi (List.getElem?_eq_getElem hlt)).1
+
+/-! ## the table as a map: `All`, `Prefix`, `LowerBound` read the primary index in key order -/
+
+/-- `All()` enumerates the map in strictly ascending primary-key order, each object under its own id -/
+theorem C03_all_in_key_order (t : TableS) (inv : TInv t) :
+    (qAll t).Pairwise (fun x y => cmpL x.id y.id = .lt) ∧ ∀ x, x ∈ qAll t ↔ qGet t .id x.id 0 = some x := by
+  constructor
+  · unfold qAll
+    rw [List.pairwise_map]
+    have hs : Sorted t.primary := inv.sortedP
+    unfold Sorted at hs
+    refine List.Pairwise.imp_of_mem ?_ hs
+    intro a b ha hb hlt
+    rw [inv.idOk a.1 a.2 ((inv.mem_primary _ _).mp ha), inv.idOk b.1 b.2 ((inv.mem_primary _ _).mp hb)]
+    exact hlt
+  · intro x; exact inv.mem_qAll x
+
+/-- `Prefix` and `LowerBound` on the primary index return exactly the live objects whose id has
+    the prefix / is not below the bound, as sub-lists of `All()` (hence in the same key order) -/
+theorem C03_prefix_and_lowerBound_reads (t : TableS) (inv : TInv t) (p : Key) :
+    List.Sublist (qPrefix t .id p 0) (qAll t) ∧ List.Sublist (qLowerBound t .id p 0) (qAll t) ∧
+    (∀ x, x ∈ qPrefix t .id p 0 ↔ x ∈ qAll t ∧ p <+: x.id) ∧
+    (∀ x, x ∈ qLowerBound t .id p 0 ↔ x ∈ qAll t ∧ cmpL x.id p ≠ .lt) := by
+  refine ⟨?_, ?_, ?_, ?_⟩
+  · exact List.Sublist.map _ (prefixQ_sublist _ _)
+  · exact List.Sublist.map _ (lowerBound_sublist _ _)
+  · intro x
+    simp only [qPrefix, qAll, List.mem_map]
+    constructor
+    · rintro ⟨⟨k, v⟩, hm, rfl⟩
+      have ⟨h1, h2⟩ := (mem_prefixQ _ _ _ _).mp hm
+      have := inv.idOk k v ((inv.mem_primary _ _).mp h1)
+      exact ⟨⟨(k, v), h1, rfl⟩, by simp only; rw [this]; exact h2⟩
+    · rintro ⟨⟨⟨k, v⟩, hm, rfl⟩, hp⟩
+      have := inv.idOk k v ((inv.mem_primary _ _).mp hm)
+      simp only at hp; rw [this] at hp
+      exact ⟨(k, v), (mem_prefixQ _ _ _ _).mpr ⟨hm, hp⟩, rfl⟩
+  · intro x
+    simp only [qLowerBound, qAll, List.mem_map]
+    constructor
+    · rintro ⟨⟨k, v⟩, hm, rfl⟩
+      have ⟨h1, h2⟩ := (mem_lowerBound _ _ _ _).mp hm
+      have := inv.idOk k v ((inv.mem_primary _ _).mp h1)
+      exact ⟨⟨(k, v), h1, rfl⟩, by simp only; rw [this]; exact h2⟩
+    · rintro ⟨⟨⟨k, v⟩, hm, rfl⟩, hp⟩
+      have := inv.idOk k v ((inv.mem_primary _ _).mp hm)
+      simp only at hp; rw [this] at hp
+      exact ⟨(k, v), (mem_lowerBound _ _ _ _).mpr ⟨hm, hp⟩, rfl⟩
+
+/-! ## Insert / InsertWatch / Modify / CompareAndSwap -/
+
+/-- the version written by `modify`: the given object at the next revision; with `merge` and
+    an existing object the values are merged (the model's merge function adds `val`) -/
+theorem C03_modify_new_version (t : TableS) (o : Obj) (merge : Bool) :
+    newObj t o merge =
+      { o with rev := t.rev + 1,
+               val := match t.primary.get o.id, merge with
+                 | some oo, true => oo.val + o.val
+                 | _, _ => o.val } := by
+  unfold newObj
+  split <;> simp_all
+
+/-- the error reported by `modify`, in every case -/
+theorem C03_modify_error (t : TableS) (guard : Nat) (o : Obj) (merge : Bool) :
+    let err := (modify t guard o merge).2.2
+    (err = .notLocked ↔ t.locked = false) ∧
+    (err = .notFound ↔ t.locked = true ∧ guard > 0 ∧ t.primary.get o.id = none) ∧
+    (err = .revNotEqual ↔ t.locked = true ∧ guard > 0 ∧ ∃ oo, t.primary.get o.id = some oo ∧ oo.rev ≠ guard) ∧
+    (err = .ok ↔ t.locked = true ∧ GuardOk guard (t.primary.get o.id)) ∧
+    err ≠ .closed := by
+  rcases modify_cases t guard o merge with ⟨hl, h⟩ | ⟨hl, hg, hn, h⟩ | ⟨hl, hg, oo, ho, hr, h⟩ | ⟨hl, hok, t', h, _⟩
+  · rw [h]; simp [hl]
+  · rw [h]; simp [hl, hg, hn, GuardOk]; omega
+  · rw [h]; simp only [hl, hg, ho, GuardOk]
+    simp [hr]; omega
+  · rw [h]
+    simp only [hl, hok]
+    simp
+    rcases hok with h0 | ⟨oo', ho', hr'⟩
+    · constructor <;> (intro hg; omega)
+    · constructor
+      · intro _; rw [ho']; simp
+      · intro _ x hx; rw [ho'] at hx; simp only [Option.some.injEq] at hx; subst hx; exact hr'
+
+/-- on a held table `modify` returns the previous object stored under the id, or its absence -/
+theorem C03_modify_returns_previous (t : TableS) (guard : Nat) (o : Obj) (merge : Bool) (hl : t.locked = true) :
+    (modify t guard o merge).2.1 = qGet t .id o.id 0 := by
+  simp only [qGet]
+  rcases modify_cases t guard o merge with ⟨hl', _⟩ | ⟨_, _, hn, h⟩ | ⟨_, _, oo, ho, _, h⟩ | ⟨_, _, t', h, _⟩
+  · rw [hl] at hl'; simp at hl'
+  · rw [h, hn]
+  · rw [h, ho]
+  · rw [h]
+
+/-- a rejected `modify` (table not held, object not found, revision mismatch) returns the
+    table unchanged, as a value -/
+theorem C03_modify_rejected_changes_nothing (t : TableS) (guard : Nat) (o : Obj) (merge : Bool)
+    (h : (modify t guard o merge).2.2 ≠ .ok) : (modify t guard o merge).1 = t := by
+  rcases modify_rev_cases t guard o merge with ⟨h', _⟩ | ⟨_, h'⟩
+  · exact absurd h' h
+  · exact h'
+
+/-- `modify` on a table that is not held: error `notLocked`, nothing returned, nothing changed -/
+theorem C03_modify_not_held (t : TableS) (guard : Nat) (o : Obj) (merge : Bool) (hl : t.locked = false) :
+    modify t guard o merge = (t, none, .notLocked) := modify_notLocked t guard o merge hl
+
+/-- CompareAndSwap (guard > 0) of an absent object: `notFound`, nothing changed -/
+theorem C03_cas_not_found (t : TableS) (guard : Nat) (o : Obj) (merge : Bool) (hl : t.locked = true)
+    (hg : guard > 0) (hn : qGet t .id o.id 0 = none) : modify t guard o merge = (t, none, .notFound) :=
+  modify_notFound t guard o merge hl hg hn
+
+/-- CompareAndSwap with a stale revision: `revNotEqual`, the current object is returned, nothing changed -/
+theorem C03_cas_revision_mismatch (t : TableS) (guard : Nat) (o : Obj) (merge : Bool) (hl : t.locked = true)
+    (hg : guard > 0) (oo : Obj) (ho : qGet t .id o.id 0 = some oo) (hr : oo.rev ≠ guard) :
+    modify t guard o merge = (t, some oo, .revNotEqual) :=
+  modify_revNotEqual t guard o merge hl hg oo ho hr
+
+/-- **a successful `modify` is the map update `id ↦ new version`**: the id maps to the written
+    version, every other id (including the empty key) is untouched.  Holds for every table
+    state, even without the invariant. -/
+theorem C03_modify_success_is_map_update (t : TableS) (guard : Nat) (o : Obj) (merge : Bool)
+    (h : (modify t guard o merge).2.2 = .ok) (k : Key) :
+    qGet (modify t guard o merge).1 .id k 0 = if k = o.id then some (newObj t o merge) else qGet t .id k 0 := by
+  simp only [qGet]
+  rcases modify_cases t guard o merge with ⟨_, h'⟩ | ⟨_, _, _, h'⟩ | ⟨_, _, oo, _, _, h'⟩ | ⟨_, _, t', h', hm⟩
+  · rw [h'] at h; simp at h
+  · rw [h'] at h; simp at h
+  · rw [h'] at h; simp at h
+  · rw [h']; simp only; rw [hm.primary, get_insert]
+
+/-- **reads in the same transaction see its own earlier writes** (table level): a Get of the id
+    just written returns the written version -/
+theorem C03_get_after_modify (t : TableS) (guard : Nat) (o : Obj) (merge : Bool)
+    (h : (modify t guard o merge).2.2 = .ok) :
+    qGet (modify t guard o merge).1 .id o.id 0 = some (newObj t o merge) := by
+  rw [C03_modify_success_is_map_update t guard o merge h]; simp
+
+/-- `All()` after a successful `modify`: the written version, and the previous objects with other ids -/
+theorem C03_all_after_modify (t : TableS) (inv : TInv t) (guard : Nat) (o : Obj) (merge : Bool)
+    (hb : t.rev + 1 < 2 ^ 64) (h : (modify t guard o merge).2.2 = .ok) (x : Obj) :
+    x ∈ qAll (modify t guard o merge).1 ↔ x = newObj t o merge ∨ (x ∈ qAll t ∧ x.id ≠ o.id) := by
+  have inv' := C03_inv_preserved_by_modify t inv guard o merge hb
+  have hu := C03_modify_success_is_map_update t guard o merge h x.id
+  simp only [qGet] at hu
+  rw [inv'.mem_qAll, inv.mem_qAll, hu]
+  by_cases hid : x.id = o.id
+  · simp only [hid, if_true, Option.some.injEq, ne_eq, not_true_eq_false, and_false, or_false]
+    exact eq_comm
+  · simp only [hid, if_false, ne_eq, not_false_eq_true, and_true]
+    constructor
+    · exact Or.inr
+    · rintro (hx | hx)
+      · exfalso; apply hid; rw [hx]; simp
+      · exact hx
+
+/-- `NumObjects` after a successful `modify`: one more iff the id was absent -/
+theorem C03_numObjects_after_modify (t : TableS) (inv : TInv t) (guard : Nat) (o : Obj) (merge : Bool)
+    (hb : t.rev + 1 < 2 ^ 64) (h : (modify t guard o merge).2.2 = .ok) :
+    numObjects (modify t guard o merge).1 =
+      if (qGet t .id o.id 0).isSome then numObjects t else numObjects t + 1 := by
+  have inv' := C03_inv_preserved_by_modify t inv guard o merge hb
+  rw [inv'.numObjects, inv.numObjects]
+  simp only [qGet, qAll, List.length_map]
+  rcases modify_cases t guard o merge with ⟨_, h'⟩ | ⟨_, _, _, h'⟩ | ⟨_, _, oo, _, _, h'⟩ | ⟨_, _, t', h', hm⟩
+  · rw [h'] at h; simp at h
+  · rw [h'] at h; simp at h
+  · rw [h'] at h; simp at h
+  · rw [h']; simp only; rw [hm.primary, length_insert]
+
+/-! ## Delete / CompareAndDelete -/
+
+/-- the error reported by `delete`, in every case -/
+theorem C03_delete_error (t : TableS) (guard : Nat) (id : Key) :
+    let err := (delete t guard id).2.2
+    (err = .notLocked ↔ t.locked = false) ∧
+    (err = .revNotEqual ↔ t.locked = true ∧ guard > 0 ∧ ∃ old, t.primary.get id = some old ∧ old.rev ≠ guard) ∧
+    (err = .ok ↔ t.locked = true ∧ (t.primary.get id = none ∨ GuardOk guard (t.primary.get id))) ∧
+    err ≠ .notFound ∧ err ≠ .closed := by
+  rcases delete_cases t guard id with ⟨hl, h⟩ | ⟨hl, hn, h⟩ | ⟨hl, hg, old, ho, hr, h⟩ | ⟨hl, old, ho, hg, t', h, _⟩
+  · rw [h]; simp [hl]
+  · rw [h]; simp [hl, hn]
+  · rw [h]; simp only [hl, hg, ho, GuardOk]
+    simp [hr]; omega
+  · rw [h]
+    simp only [hl, ho, GuardOk]
+    simp
+    refine ⟨?_, by omega⟩
+    intro _; omega
+
+/-- on a held table `delete` returns the previous object stored under the id, or its absence -/
+theorem C03_delete_returns_previous (t : TableS) (guard : Nat) (id : Key) (hl : t.locked = true) :
+    (delete t guard id).2.1 = qGet t .id id 0 := by
+  simp only [qGet]
+  rcases delete_cases t guard id with ⟨hl', _⟩ | ⟨_, hn, h⟩ | ⟨_, _, old, ho, _, h⟩ | ⟨_, old, ho, _, t', h, _⟩
+  · rw [hl] at hl'; simp at hl'
+  · rw [h, hn]
+  · rw [h, ho]
+  · rw [h, ho]
+
+/-- a `delete` that reports an error returns the table unchanged -/
+theorem C03_delete_rejected_changes_nothing (t : TableS) (guard : Nat) (id : Key)
+    (h : (delete t guard id).2.2 ≠ .ok) : (delete t guard id).1 = t := by
+  rcases delete_cases t guard id with ⟨_, h'⟩ | ⟨_, _, h'⟩ | ⟨_, _, old, _, _, h'⟩ | ⟨_, old, _, _, t', h', _⟩
+  · rw [h']
+  · rw [h']
+  · rw [h']
+  · rw [h'] at h; simp at h
+
+/-- `delete` on a table that is not held: error `notLocked`, nothing changed -/
+theorem C03_delete_not_held (t : TableS) (guard : Nat) (id : Key) (hl : t.locked = false) :
+    delete t guard id = (t, none, .notLocked) := delete_notLocked t guard id hl
+
+/-- deleting an absent object is a successful no-op: no error, nothing returned, nothing changed -/
+theorem C03_delete_absent_is_noop (t : TableS) (guard : Nat) (id : Key) (hl : t.locked = true)
+    (hn : qGet t .id id 0 = none) : delete t guard id = (t, none, .ok) := delete_absent t guard id hl hn
+
+/-- CompareAndDelete with a stale revision: `revNotEqual`, the current object is returned, nothing changed -/
+theorem C03_cad_revision_mismatch (t : TableS) (guard : Nat) (id : Key) (hl : t.locked = true)
+    (hg : guard > 0) (old : Obj) (ho : qGet t .id id 0 = some old) (hr : old.rev ≠ guard) :
+    delete t guard id = (t, some old, .revNotEqual) := delete_revNotEqual t guard id hl old ho hg hr
+
+/-- **`delete` is map erasure**: whenever it reports no error the id is absent afterwards and
+    every other id is untouched -/
+theorem C03_delete_success_is_map_erase (t : TableS) (inv : TInv t) (guard : Nat) (id : Key)
+    (h : (delete t guard id).2.2 = .ok) (k : Key) :
+    qGet (delete t guard id).1 .id k 0 = if k = id then none else qGet t .id k 0 := by
+  simp only [qGet]
+  rcases delete_cases t guard id with ⟨_, h'⟩ | ⟨_, hn, h'⟩ | ⟨_, _, old, _, _, h'⟩ | ⟨_, old, _, _, t', h', hd⟩
+  · rw [h'] at h; simp at h
+  · rw [h']; simp only
+    split
+    · rename_i hk; rw [hk, hn]
+    · rfl
+  · rw [h'] at h; simp at h
+  · rw [h']; simp only; rw [hd.primary, get_erase _ inv.sortedP]
+
+/-- a Get of the id just deleted finds nothing (reads see the transaction's own deletes) -/
+theorem C03_get_after_delete (t : TableS) (inv : TInv t) (guard : Nat) (id : Key)
+    (h : (delete t guard id).2.2 = .ok) : qGet (delete t guard id).1 .id id 0 = none := by
+  rw [C03_delete_success_is_map_erase t inv guard id h]; simp
+
+/-- `All()` after a `delete` without error: the previous objects with other ids -/
+theorem C03_all_after_delete (t : TableS) (inv : TInv t) (guard : Nat) (id : Key)
+    (hb : t.rev + 1 < 2 ^ 64) (h : (delete t guard id).2.2 = .ok) (x : Obj) :
+    x ∈ qAll (delete t guard id).1 ↔ x ∈ qAll t ∧ x.id ≠ id := by
+  have inv' := C03_inv_preserved_by_delete t inv guard id hb
+  have hu := C03_delete_success_is_map_erase t inv guard id h x.id
+  simp only [qGet] at hu
+  rw [inv'.mem_qAll, inv.mem_qAll, hu]
+  by_cases hid : x.id = id <;> simp [hid]
+
+/-- `NumObjects` after a `delete` without error: one less iff the id was present -/
+theorem C03_numObjects_after_delete (t : TableS) (inv : TInv t) (guard : Nat) (id : Key)
+    (hb : t.rev + 1 < 2 ^ 64) (h : (delete t guard id).2.2 = .ok) :
+    numObjects (delete t guard id).1 =
+      if (qGet t .id id 0).isSome then numObjects t - 1 else numObjects t := by
+  have inv' := C03_inv_preserved_by_delete t inv guard id hb
+  rw [inv'.numObjects, inv.numObjects]
+  simp only [qGet, qAll, List.length_map]
+  rcases delete_cases t guard id with ⟨_, h'⟩ | ⟨_, hn, h'⟩ | ⟨_, _, old, _, _, h'⟩ | ⟨_, old, _, _, t', h', hd⟩
+  · rw [h'] at h; simp at h
+  · rw [h', hn]; simp
+  · rw [h'] at h; simp at h
+  · rw [h']; simp only; rw [hd.primary, length_erase]
+
+/-! ## DeleteAll -/
+
+/-- DeleteAll on a held table: no error, and afterwards the table is the empty map
+    (no Get finds anything, `All()` is empty, `NumObjects` is 0) -/
+theorem C03_deleteAll_empties (t : TableS) (inv : TInv t) (hl : t.locked = true)
+    (hb : t.rev + t.primary.length < 2 ^ 64) :
+    (deleteAll t).2 = .ok ∧ (∀ k, qGet (deleteAll t).1 .id k 0 = none) ∧
+    qAll (deleteAll t).1 = [] ∧ numObjects (deleteAll t).1 = 0 := by
+  have ⟨hp, he⟩ := deleteAll_primary t hl inv.sortedP
+  have inv' := C03_inv_preserved_by_deleteAll t inv hb
+  refine ⟨he, ?_, ?_, ?_⟩
+  · intro k; simp [qGet, hp]
+  · simp [qAll, hp]
+  · simp [numObjects, inv'.revIdx_nil hp]
+
+/-- DeleteAll on a table that is not held changes nothing; it reports `notLocked` unless the
+    table is empty (the loop body, which performs the check, then never runs: model and Go agree) -/
+theorem C03_deleteAll_not_held (t : TableS) (hl : t.locked = false) :
+    (deleteAll t).1 = t ∧ (deleteAll t).2 = if t.primary.isEmpty then .ok else .notLocked := by
+  rw [deleteAll_notLocked t hl]; simp
+
+/-- DeleteAll is the sequence of unguarded deletes of the ids present when it starts -/
+theorem C03_deleteAll_is_delete_sequence (t : TableS) (hl : t.locked = true) :
+    (deleteAll t).1 = run t (t.primary.map fun e => Op.delete 0 e.1) := deleteAll_as_ops t hl
+
+/-! ## through the transaction handle: own writes, other tables, finished transactions, commit, abort -/
+
+/-- **reads in the same transaction see its own earlier writes**: after a successful write through
+    the handle a Get on the transaction's table returns the written version, every other id of
+    that table and every other table of the transaction are as before, and the committed
+    snapshot (`db.root`) is untouched -/
+theorem C03_txn_reads_own_writes (db : DB) (es : List TableS) (hes : db.wtxn = some es) (ti : Nat) (e : TableS)
+    (he : es[ti]? = some e) (guard : Nat) (o : Obj) (merge : Bool)
+    (h : (db.wModify ti guard o merge).2.2 = .ok) :
+    ∃ es', (db.wModify ti guard o merge).1.wtxn = some es' ∧
+      (∀ k, qGet (DB.wTable es' ti) .id k 0 = if k = o.id then some (newObj e o merge) else qGet e .id k 0) ∧
+      (∀ tj, tj ≠ ti → es'[tj]? = es[tj]?) ∧
+      (db.wModify ti guard o merge).1.root = db.root ∧
+      (db.wModify ti guard o merge).2.1 = qGet e .id o.id 0 := by
+  simp only [DB.wModify, hes, DB.wTable_of_getElem? he] at h ⊢
+  refine ⟨_, rfl, ?_, ?_, trivial, ?_⟩
+  · intro k
+    have hlt : ti < es.length := by
+      rcases Nat.lt_or_ge ti es.length with h' | h'
+      · exact h'
+      · rw [List.getElem?_eq_none h'] at he; simp at he
+    have : DB.wTable (es.set ti (modify e guard o merge).1) ti = (modify e guard o merge).1 := by
+      apply DB.wTable_of_getElem?
+      rw [List.getElem?_set]; simp [hlt]
+    rw [this]
+    exact C03_modify_success_is_map_update e guard o merge h k
+  · intro tj hne
+    rw [List.getElem?_set]; simp [Ne.symm hne]
+  · have hl : e.locked = true := ((C03_modify_error e guard o merge).2.2.2.1.mp h).1
+    exact C03_modify_returns_previous e guard o merge hl
+
+/-- a write through the handle on a table the transaction does not hold: `notLocked`, and the
+    whole database value (transaction tables and committed root) is unchanged -/
+theorem C03_txn_write_on_unheld_table (db : DB) (es : List TableS) (hes : db.wtxn = some es) (ti : Nat) (e : TableS)
+    (he : es[ti]? = some e) (hl : e.locked = false) (guard : Nat) (o : Obj) (merge : Bool) (id : Key) :
+    db.wModify ti guard o merge = (db, none, .notLocked) ∧ db.wDelete ti guard id = (db, none, .notLocked) := by
+  have hset : es.set ti e = es := by
+    apply List.ext_getElem?
+    intro i
+    rw [List.getElem?_set]
+    split
+    · rename_i hi; subst hi
+      split
+      · exact he.symm
+      · rename_i hlt
+        rw [List.getElem?_eq_none (by omega)]
+    · rfl
+  have hdb : { db with wtxn := some es } = db := by
+    cases db; simp only at hes; subst hes; rfl
+  constructor
+  · simp only [DB.wModify, hes, DB.wTable_of_getElem? he, modify_notLocked e guard o merge hl, hset, hdb]
+  · simp only [DB.wDelete, hes, DB.wTable_of_getElem? he, delete_notLocked e guard id hl, hset, hdb]
+
+/-- a write through a finished (committed or aborted) transaction: `closed`, nothing changed -/
+theorem C03_finished_txn_rejects_writes (db : DB) (h : db.wtxn = none) (ti guard : Nat) (o : Obj) (merge : Bool) (id : Key) :
+    db.wModify ti guard o merge = (db, none, .closed) ∧ db.wDelete ti guard id = (db, none, .closed) := by
+  simp [DB.wModify, DB.wDelete, h]
+
+/-- Commit and Abort finish the transaction -/
+theorem C03_commit_abort_finish_txn (db : DB) : db.commit.wtxn = none ∧ db.abort.wtxn = none := by
+  constructor
+  · simp only [DB.commit]
+    cases h : db.wtxn <;> simp [h]
+  · rfl
+
+/-- Abort leaves the committed state exactly as it was: all writes of the transaction are discarded -/
+theorem C03_abort_discards_writes (db : DB) : db.abort.root = db.root := rfl
+
+/-- **across committed transactions**: Commit publishes, for every table, exactly the map the
+    transaction saw last (a held table: its working copy; an unheld table: the unchanged
+    committed one), so later snapshots read the transaction's writes -/
+theorem C03_commit_publishes_txn_view (db : DB) (h : Reach db) (es : List TableS) (hes : db.wtxn = some es)
+    (i : Nat) (e : TableS) (he : es[i]? = some e) :
+    ∃ r', db.commit.root[i]? = some r' ∧ r'.rev = e.rev ∧ ∀ k, qGet r' .id k 0 = qGet e .id k 0 := by
+  have inv := h.inv
+  have ⟨hlen, hall⟩ := inv.txn es hes
+  have hlt : i < db.root.length := by
+    rw [← hlen]
+    rcases Nat.lt_or_ge i es.length with h' | h'
+    · exact h'
+    · rw [List.getElem?_eq_none h'] at he; simp at he
+  have hc : db.root[i]? = some db.root[i] := List.getElem?_eq_getElem hlt
+  obtain ⟨r', hr', h1, h2⟩ := commit_root db es hes i e db.root[i] he hc
+  have ⟨_, _, hun⟩ := hall i e db.root[i] he hc
+  refine ⟨r', hr', ?_, ?_⟩
+  · cases hl : e.locked
+    · rw [h2 hl, (hun hl).1]
+    · exact (h1 hl).1
+  · intro k
+    simp only [qGet]
+    cases hl : e.locked
+    · rw [h2 hl, (hun hl).2.1]
+    · rw [(h1 hl).2.1]
+
+/-- a table the transaction did not hold is published unchanged by Commit -/
+theorem C03_commit_keeps_unheld_tables (db : DB) (es : List TableS) (hes : db.wtxn = some es)
+    (i : Nat) (e cur : TableS) (he : es[i]? = some e) (hc : db.root[i]? = some cur) (hl : e.locked = false) :
+    db.commit.root[i]? = some cur := by
+  obtain ⟨r', hr', _, h2⟩ := commit_root db es hes i e cur he hc
+  rw [hr', h2 hl]
+
+/-! ## non-vacuity -/
+
+/-- two concrete objects (one with the empty key as id) -/
+private def oA : Obj := { id := [], val := 5, uvar := 0, tags := [], pfxs := [], up := false, ord := 0, rev := 0 }
+private def oB : Obj := { id := [1, 2], val := 7, uvar := 1, tags := [[3]], pfxs := [], up := false, ord := 1, rev := 0 }
+private def t0 : TableS := { locked := true }
+private def t2 : TableS := (modify (modify t0 0 oA false).1 0 oB false).1
+
+/-- the invariant holds on a table with two objects -/
+example : TInv t2 :=
+  C03_inv_preserved_by_modify _ (C03_inv_preserved_by_modify _ (C03_inv_initial t0 rfl rfl (by decide)) 0 oA false (by decide))
+    0 oB false (by decide)
+
+/-- … on which the operations succeed and fail as described -/
+example : (modify t2 0 oA true).2.2 = .ok ∧ (modify t2 9 oA false).2.2 = .revNotEqual ∧
+    (modify t2 1 oA false).2.2 = .ok ∧ (delete t2 2 [1, 2]).2.2 = .ok ∧ (delete t2 1 [1, 2]).2.2 = .revNotEqual ∧
+    (modify t2 3 { oA with id := [9] } false).2.2 = .notFound ∧ (deleteAll t2).2 = .ok := by decide
+
+/-- a reachable database state with an open write transaction -/
+example : Reach ((newDB.step (.beginW true false)).step (.modify 0 0 oA false)) :=
+  Reach.step _ (Reach.step _ Reach.init (DB.bounded_of_boundedB _ (by decide))) (DB.bounded_of_boundedB _ (by decide))
+
 end Sdb
